@@ -13,7 +13,6 @@ import (
 	"time"
 
 	"github.com/couchbase/sync_gateway/auth"
-	"github.com/couchbase/sync_gateway/base"
 	"github.com/couchbase/sync_gateway/channels"
 )
 
@@ -62,21 +61,16 @@ func (s *c03sSession) close() {
 
 var c03sSentinel int
 
-// wait until every principal-document mutation made so far has been notified to the change listener
+// wait until every principal-document mutation made so far has been notified to the change listener: ONE raw write of a
+// sentinel document whose key is a role key (never loaded as a role), then its key count is awaited -- the caching
+// feed delivers the events of the metadata collection in the order of the writes
 func (e *c03Env) sDrain() error {
 	c03sSentinel++
-	name := "c03sentinel"
-	set := base.SetOf(fmt.Sprintf("S%d", c03sSentinel))
-	cfg := &auth.PrincipalConfig{Name: &name}
-	if e.isDefault {
-		cfg.ExplicitChannels = set
-	} else {
-		cfg.CollectionAccess = map[string]map[string]*auth.CollectionAccessConfig{e.scope: {e.coll: {ExplicitChannels_: set}}}
-	}
 	dbc := e.db.DatabaseContext
-	key := channels.NewID(dbc.MetadataKeys.RoleKey(name), principalDocCollectionIDForChannelID)
+	docID := dbc.MetadataKeys.RoleKey("c03sentinel")
+	key := channels.NewID(docID, principalDocCollectionIDForChannelID)
 	prev := dbc.mutationListener.CurrentCount([]channels.ID{key})
-	if _, _, err := dbc.UpdatePrincipal(e.ctx, cfg, false, true); err != nil {
+	if err := dbc.MetadataStore.SetRaw(e.ctx, docID, 0, nil, []byte(fmt.Sprintf(`{"name":"c03sentinel","n":%d}`, c03sSentinel))); err != nil {
 		return err
 	}
 	deadline := time.Now().Add(20 * time.Second)
@@ -318,6 +312,22 @@ func c03sRun(e *c03Env, rec *vRecorder, ops []c03sOp) ([]c03sOut, *c03Failure, b
 		outs = append(outs, out)
 		if derr := e.sDrain(); derr != nil {
 			setFail(i, "operation_succeeds", "op-error:drain", fmt.Sprintf("op %d: %v", i, derr))
+		}
+		if op.Kind == "request" {
+			// The writes of the reload itself (lazy rebuilds of the user and its roles) are notified asynchronously:
+			// they reach the waiter either before RefreshUserKeys takes lastUserCount (absorbed) or after it (one more
+			// reload at the next request, which rebuilds nothing).  The model takes the first schedule; the harness
+			// fixes it by letting the session's waiter absorb them now that they have all arrived.
+			if s := sessions[op.Sess]; s != nil {
+				if s.feed {
+					s.w.RefreshUserCount()
+					s.cnt = s.w.CurrentUserCount()
+				} else {
+					s.bsc.dbUserLock.Lock()
+					s.bsc.userChangeWaiter.RefreshUserCount()
+					s.bsc.dbUserLock.Unlock()
+				}
+			}
 		}
 	}
 	return outs, fail, pickedUp
